@@ -41,3 +41,8 @@ Lemma lex_punct_is_spec : lex_punct_tbl =
   [(33, 2); (36, 3); (38, 4); (40, 5); (41, 6); (58, 9); (61, 10); (64, 11);
    (91, 12); (93, 13); (123, 14); (124, 15); (125, 16)].
 Proof. reflexivity. Qed.
+
+(* every node-valued dataclass field of every node class is listed in QUERY_DOCUMENT_KEYS,
+   and every listed key is a field (swept from the implementation's classes) *)
+Lemma keys_complete : keys_missing_count = 0 /\ keys_unknown_count = 0.
+Proof. split; reflexivity. Qed.
